@@ -496,16 +496,9 @@ class Runner:
         try:
             sat = ctx.check(neg)
         except S.Unsupported:
-            # one retry with a four times longer limit (timeouts are wall-clock and the cores are shared)
-            try:
-                ctx.solver.set("timeout", 4 * self.job.solver_timeout_ms)
-                sat = ctx.check(neg)
-            except S.Unsupported:
-                res.unknown += 1
-                res.errors.append("unknown at %s" % site)
-                return
-            finally:
-                ctx.solver.set("timeout", self.job.solver_timeout_ms)
+            res.unknown += 1          # (Ctx.check has already retried once with a four times longer limit)
+            res.errors.append("unknown at %s" % site)
+            return
         if not sat:
             res.discharged += 1
             st[1] += 1
